@@ -41,12 +41,22 @@ TIMEOUT = 5.0
 TEXT = "h\u00e9llo \u20ac \U0001f600 l\u2028s\u0085n\u2029p"
 
 
-def sse_event(event: Optional[str], data: str) -> bytes:
-    s = ""
+def sse_event(event: Optional[str], data: str, framing: Optional[str] = None) -> bytes:
+    """One event in one of the encodings the event-stream format allows for the same (type, data)."""
+    sep = "" if framing == "nospace" else " "
+    nl = "\r\n" if framing == "crlf" else "\n"
+    lines = []
+    if framing == "fields":
+        lines += [": keep-alive", "id: 7", "retry: 3000"]
     if event:
-        s += f"event: {event}\n"
-    s += f"data: {data}\n\n"
-    return s.encode("utf-8")
+        lines.append(f"event:{sep}{event}")
+    if framing == "multiline" and data[:1] in "{[":
+        # the same JSON text spread over several data lines (they are joined with a line feed: white space between tokens)
+        pretty = json.dumps(json.loads(data), indent=1, ensure_ascii=False)
+        lines += [f"data:{sep}{ln}" for ln in pretty.split("\n")]
+    else:
+        lines.append(f"data:{sep}{data}")
+    return (nl.join(lines) + nl + nl).encode("utf-8")
 
 
 EST_FORMS = {
@@ -55,6 +65,7 @@ EST_FORMS = {
     "full_url": ("endpoint", "http://sse.test/messages/?session_id=full1"),
     "query": ("endpoint", "session_id=q77"),
     "untyped_path": (None, "/messages/?session_id=untyped"),
+    "relative_path": ("endpoint", "messages/?session_id=rel1"),
 }
 
 
@@ -64,7 +75,8 @@ class Server:
         self.base = base or BASE
         self.est = case["est"]
         self.bare = bool(case.get("bare"))   # JSON-RPC events written without an `event:` line
-        self.modes = list(case.get("requests", []))
+        self.framing = case.get("framing")
+        self.modes = list(case.get("requests", [])) + list(case.get("late_requests", []))
         self.stream: Optional[TimedByteStream] = None
         self.announced_at: Optional[float] = None
         self.announced_url: Optional[str] = None
@@ -83,6 +95,8 @@ class Server:
             return self.base + data
         if data.startswith("http"):
             return data
+        if "/" in data.split("?")[0]:
+            return f"{self.base}/{data}"     # a relative reference, resolved against <base>/sse
         return f"{self.base}/messages/?{data}"
 
     async def handle(self, request: httpx.Request, rec):
@@ -104,14 +118,18 @@ class Server:
                 form = self.est.get("form", k if k in EST_FORMS else "path")
                 ev, data = EST_FORMS[form]
                 t = self.est.get("delay")
-                raw = sse_event(ev, data)
+                raw = sse_event(ev, data, self.framing)
                 if self.est.get("preamble"):
                     raw = b": welcome\n\nevent: keepalive\ndata: {}\n\n" + raw
                 chunks.append((t, ("ANNOUNCE", raw)))
             # server-initiated messages (after the announcement)
             sm = self.case.get("server_msgs") or []
             if sm:
-                raw = b"".join(sse_event(None if self.bare else "message", json.dumps(w, ensure_ascii=False)) for w in sm)
+                if self.case.get("batch_event"):
+                    # all of them in one event: a JSON-RPC batch
+                    raw = sse_event(None if self.bare else "message", json.dumps(sm, ensure_ascii=False), self.framing)
+                else:
+                    raw = b"".join(sse_event(None if self.bare else "message", json.dumps(w, ensure_ascii=False), self.framing) for w in sm)
                 cuts = self.case.get("cuts") or []
                 last = 0
                 t0 = self.case.get("server_msgs_at", 0.5)
@@ -121,6 +139,8 @@ class Server:
                     if piece:
                         chunks.append((t0 + 0.001 * i, piece))
             stream = TimedByteStream([], hold_open=True, log=self.log)
+            # what the network layer would do with the read timeout this request was made with
+            stream.read_timeout = (request.extensions.get("timeout") or {}).get("read")
             self.stream = stream
             srv = self
 
@@ -144,6 +164,9 @@ class Server:
         self.posts.append({"url": str(request.url), "body": body, "t": loop.time()})
         if rid is None:
             return httpx.Response(202)
+        if "method" not in body:
+            # the client's answer to a request of ours
+            return httpx.Response(202) if self.case.get("answer_ack", 202) == 202 else httpx.Response(200, content=b"")
         mode = next((m for m in self.modes if m["id"] == rid and not m.get("_used")), None)
         if mode is None:
             return httpx.Response(202)
@@ -166,16 +189,16 @@ class Server:
         if m == "202_then_event":
             async def later():
                 await asyncio.sleep(d)
-                self.stream.feed(sse_event(None if self.bare else "message", json.dumps(resp, ensure_ascii=False)))
+                self.stream.feed(sse_event(None if self.bare else "message", json.dumps(resp, ensure_ascii=False), self.framing))
             asyncio.create_task(later(), name="vf-sse-later")
             return httpx.Response(202)
         if m == "event_then_202":
-            self.stream.feed(sse_event(None if self.bare else "message", json.dumps(resp, ensure_ascii=False)))
+            self.stream.feed(sse_event(None if self.bare else "message", json.dumps(resp, ensure_ascii=False), self.framing))
             await asyncio.sleep(d)
             return httpx.Response(202)
         if m in ("event_then_200_body", "event_then_500", "event_then_exception"):
             # the answer is already on the event stream when the POST completes - and it does not complete with 202
-            self.stream.feed(sse_event(None if self.bare else "message", json.dumps(resp, ensure_ascii=False)))
+            self.stream.feed(sse_event(None if self.bare else "message", json.dumps(resp, ensure_ascii=False), self.framing))
             await asyncio.sleep(d)
             if m == "event_then_200_body":
                 return httpx.Response(200, json=resp)
@@ -273,6 +296,37 @@ def gen_cases(ctx):
         for mode in ("200_body", "202_then_event", "event_then_202"):
             yield {"est": {"kind": "path"}, "requests": [{"id": 5, "mode": mode, "delay": 0.1, "result_kind": rk},
                                                          {"id": "after", "mode": "202_then_event", "delay": 0.1}], "exit": "normal"}
+    # --- the same events in the other encodings the event-stream format allows -------------------------
+    sm0 = [{"jsonrpc": "2.0", "method": "notifications/message", "params": {"level": "info", "data": TEXT + str(i), "n": [1, {"k": None}]}}
+           for i in range(2)] + [{"jsonrpc": "2.0", "id": "srv-7", "method": "roots/list"}]
+    for framing in ("nospace", "multiline", "crlf", "fields"):
+        for bare in (False, True):
+            for est_kind in ("path", "relative_path"):
+                raw_len0 = len(b"".join(sse_event(None if bare else "message", json.dumps(w, ensure_ascii=False), framing) for w in sm0))
+                for cuts in ([], sorted(rng.sample(range(1, raw_len0), 5)), list(range(1, raw_len0, 3))):
+                    yield {"est": {"kind": est_kind}, "framing": framing, "bare": bare, "server_msgs": sm0, "cuts": cuts,
+                           "server_msgs_at": 0.3,
+                           "requests": [{"id": "f1", "mode": "202_then_event", "delay": 0.2}, {"id": "f2", "mode": "event_then_202", "delay": 0.1},
+                                        {"id": "f3", "mode": "200_body"}], "exit": "normal"}
+    # --- all the server's messages in one event (a JSON-RPC batch) -------------------------------------
+    for bare in (False, True):
+        yield {"est": {"kind": "path"}, "bare": bare, "server_msgs": sm0, "cuts": [], "batch_event": True, "server_msgs_at": 0.3,
+               "requests": [{"id": "b1", "mode": "202_then_event", "delay": 0.2}], "exit": "normal"}
+    # --- the application answers the server's requests (the answers are POSTed; nothing may come back for them) ---
+    sreqs = [{"jsonrpc": "2.0", "id": "srv-1", "method": "roots/list"},
+             {"jsonrpc": "2.0", "method": "notifications/message", "params": {"level": "info", "data": "between"}},
+             {"jsonrpc": "2.0", "id": 77, "method": "sampling/createMessage", "params": {"messages": []}}]
+    for ack in (202, 200):
+        for est_kind in ("path", "query"):
+            yield {"est": {"kind": est_kind}, "server_msgs": sreqs, "cuts": [], "server_msgs_at": 0.3, "answer_server_requests": True,
+                   "answer_ack": ack, "requests": [{"id": "before", "mode": "202_then_event", "delay": 0.1}],
+                   "late_requests": [{"id": "late-1", "mode": "202_then_event", "delay": 0.1}, {"id": 78, "mode": "200_body"}],
+                   "exit": "normal"}
+    # --- a quiet event stream: nothing for longer than the configured timeout, then the server speaks ------
+    for quiet in (TIMEOUT + 2.0, 3 * TIMEOUT):
+        yield {"est": {"kind": "path"}, "server_msgs": sm0, "cuts": [], "server_msgs_at": quiet,
+               "requests": [], "late_requests": [{"id": "after-quiet", "mode": "202_then_event", "delay": 0.1}],
+               "answer_server_requests": True, "exit": "normal"}
     # --- a second SSE connection (other server, same ids) alive in the same process ------
     for mode in REQUEST_MODES:
         yield {"est": {"kind": "path"}, "requests": [{"id": 7, "mode": mode, "delay": 0.1}], "exit": "normal", "twin": True}
@@ -348,10 +402,21 @@ async def scenario(case: Dict[str, Any], srv: Server, obs: Dict[str, Any]):
             obs["entered_at"] = loop.time()
             obs["announced_at_entry"] = srv.announced_at
 
+            answered = obs.setdefault("answered", [])
+
             async def drain():
                 try:
                     async for m in read:
                         got.append((loop.time(), m))
+                        if case.get("answer_server_requests") and getattr(m, "method", None) and getattr(m, "id", None) is not None:
+                            # the application answers the server's request (typed and plain forms alternate)
+                            ans = {"jsonrpc": "2.0", "id": m.id, "result": {"roots": [], "text": TEXT}}
+                            if len(answered) % 2 == 0:
+                                from chuk_mcp.protocol.messages.json_rpc_message import create_response
+                                await write.send(create_response(m.id, {"roots": [], "text": TEXT}))
+                            else:
+                                await write.send(ans)
+                            answered.append(ans)
                 except Exception:
                     pass
             dt = asyncio.create_task(drain(), name="vf-drain")
@@ -370,13 +435,19 @@ async def scenario(case: Dict[str, Any], srv: Server, obs: Dict[str, Any]):
                                                                          "202_then_event_error", "event_then_202_error")
                                         and (req["mode"] == "202_silence" or req.get("delay", 0) > 1) else 1.5)
                 if case.get("server_msgs"):
-                    await asyncio.sleep(2.0)
+                    await asyncio.sleep(2.0 + max(0.0, case.get("server_msgs_at", 0.5) - 0.5))
+                if case.get("answer_server_requests"):
+                    await asyncio.sleep(TIMEOUT + 1.0)   # an answer wrongly treated as a request would "time out" here
+                    for k_req, req in enumerate(case.get("late_requests", [])):
+                        await write.send(create_request("tools/call", {"name": "t", "arguments": {"x": TEXT}}, id=req["id"]))
+                        await asyncio.sleep(1.5)
                 if any("202" in r["mode"] for r in case.get("requests", [])):
                     await asyncio.sleep(TIMEOUT + 1.0)   # a wrongly pending request would time out here
                 if case["exit"] == "exception":
                     raise RuntimeError("body failed")
             finally:
                 dt.cancel()
+                obs["caller_ends"] = (read, write)
         obs["exit"] = "normal"
     except RuntimeError as e:
         if "body failed" in str(e):
@@ -408,6 +479,9 @@ def run_once(case: Dict[str, Any], cancel_at: Optional[int] = None, cancel_mode:
         return await srv.handle(request, rec)
 
     async def main():
+        with warnings.catch_warnings():
+            warnings.simplefilter("ignore")
+            gc.collect()     # garbage of earlier runs is not this run's
         with warnings.catch_warnings(record=True) as wlist:
             warnings.simplefilter("always")
             with ScriptedHTTP(route) as http:
@@ -451,6 +525,14 @@ def run_once(case: Dict[str, Any], cancel_at: Optional[int] = None, cancel_mode:
                 for x in left:
                     x.cancel()
                 await asyncio.sleep(0.01)
+                # the caller closes the two ends it was given; what is still reported un-closed after that is the transport's own
+                for o in (obs, twin_obs):
+                    for end in o.pop("caller_ends", ()):
+                        try:
+                            end.close()
+                        except Exception:
+                            pass
+                obs["context_was_entered"] = "entered_at" in obs
                 gc.collect()
             obs["warnings"] = [str(w.message)[:160] for w in wlist
                                if issubclass(w.category, (ResourceWarning, RuntimeWarning))]
@@ -555,6 +637,11 @@ def check_clean(ctx, case, obs, label=""):
            and "MemoryObject" not in w]
     if bad:
         ctx.violation("resource_warning", f"{label}{bad[:3]}", case)
+    # ... but once the context was entered and left and the caller has closed the two ends it was given, an un-closed
+    # memory stream end is one the transport created for itself and did not release
+    own = [w for w in obs.get("warnings", []) if "MemoryObject" in w and "unclosed" in w.lower()]
+    if own and obs.get("context_was_entered") and not obs.get("cancelled"):
+        ctx.violation("own_stream_end_left_open", f"{label}after the context was left (and the caller closed its own two ends): {own[:3]}", case)
 
 
 def exec_case(ctx, case: Dict[str, Any]) -> None:
@@ -617,11 +704,24 @@ def exec_case(ctx, case: Dict[str, Any]) -> None:
                     ctx.violation("server_request_with_pending_id_not_delivered_once", f"the server's own request with id {rid!r} "
                                   f"(same id as the client request in flight) was delivered {len(sreq)} times", case)
             shape.append(len(mine))
+        if case.get("answer_server_requests") and case["exit"] == "normal":
+            ctx.count("server_requests_answered", len(obs.get("answered", [])))
+            for ans in obs.get("answered", []):
+                aposts = [p for p in obs["posts"] if "method" not in p["body"] and strict_eq(p["body"].get("id"), ans["id"])]
+                if len(aposts) != 1 or not strict_eq(aposts[0]["body"], ans):
+                    ctx.violation("answer_to_server_request_not_posted_once", f"the application's answer {ans!r} to the server's "
+                                  f"request was POSTed {len(aposts)} time(s): {[p['body'] for p in aposts]!r}", case)
+            for req in case.get("late_requests", []):
+                lp = [p for p in obs["posts"] if p["body"].get("id") == req["id"]]
+                mine = [g for g in [norm_any(m) for _, m in obs["got"]] if g[0] in ("response", "error") and g[1] == tagged(req["id"])]
+                if len(lp) != 1 or len(mine) != 1:
+                    ctx.violation("request_after_answer_disturbed", f"request {req['id']!r} written after the application had answered a "
+                                  f"server request: {len(lp)} POSTs, {len(mine)} terminal messages", case)
         # server messages: once, in order
         if case.get("server_msgs"):
             msgs = [norm_any(m) for _, m in obs["got"]]
             exp = [norm_any(w) for w in case["server_msgs"]]
-            rids = {tagged(r["id"]) for r in case.get("requests", [])}
+            rids = {tagged(r["id"]) for r in case.get("requests", []) + case.get("late_requests", [])}
             got_srv = [g for g in msgs if g[1] not in rids or g[0] in ("request", "notification")]
             if got_srv != exp:
                 if len(got_srv) < len(exp):
